@@ -39,7 +39,12 @@ type hookScenario struct {
 	// nest (sched, cli; >= 2 tasks): the first half of the tasks form a pipeline of their own ("pin") which the
 	// first stage of p includes; on a command line with several targets, pin is the first target
 	nest bool
+	// nestStrict (with nest, parallel tasks): the stages of the included pipeline do NOT allow failure, so a failing
+	// task makes the included run fail; the including stage tolerates it and the rest of p goes on in the same contexts
+	nestStrict bool
 }
+
+func (s hookScenario) strictInner() bool { return s.nestStrict && s.par && s.nestLen() > 0 }
 
 func (s hookScenario) nestLen() int {
 	if s.nest && len(s.tasks) >= 2 && (s.via == "sched" || s.via == "cli") {
@@ -106,6 +111,9 @@ func (s hookScenario) line() string {
 	}
 	if s.nestLen() > 0 {
 		extra += fmt.Sprintf(" nested-first-%d", s.nestLen())
+		if s.strictInner() {
+			extra += "(its stages do not allow failure)"
+		}
 	}
 	if s.form != "" || s.ghost {
 		extra += fmt.Sprintf(" form=%s ghost=%v", s.form, s.ghost)
@@ -191,7 +199,7 @@ func (s hookScenario) yaml(trace string) string {
 			if !s.par && i > 0 {
 				fmt.Fprintf(&b, "      depends_on: [t%d]\n      allow_failure: true\n", i-1)
 			} else {
-				fmt.Fprintf(&b, "      allow_failure: true\n")
+				fmt.Fprintf(&b, "      allow_failure: %v\n", !s.strictInner())
 			}
 		}
 	}
@@ -313,7 +321,7 @@ func runHookScenario(s hookScenario) hookObs {
 			var stages, inner, all []*scheduler.Stage
 			h := s.nestLen()
 			for i, t := range tasks {
-				st := &scheduler.Stage{Name: t.Name, Task: t, AllowFailure: true}
+				st := &scheduler.Stage{Name: t.Name, Task: t, AllowFailure: !(s.strictInner() && i < s.nestLen())}
 				switch {
 				case h > 0 && i == h:
 					st.DependsOn = []string{"pin"}
@@ -597,6 +605,12 @@ func genHookScenarios(tier string, rng *rand.Rand) []hookScenario {
 				}
 				out = append(out, hookScenario{upFail: []bool{false, false}, via: via, par: par, form: form, nest: true,
 					tasks: []hookTask{{ctx: 0, cond: 'n', before: true}, {ctx: 0, cond: 'n'}, {ctx: 1, cond: 'n'}, {ctx: 0, cond: 'n', after: true}, {ctx: 1, cond: 'n'}}})
+				if par {
+					// the included pipeline fails (its first task does, and its stages do not allow failure); the
+					// including stage tolerates that and the later stages use the same contexts
+					out = append(out, hookScenario{upFail: []bool{false, false}, via: via, par: par, form: form, nest: true, nestStrict: true,
+						tasks: []hookTask{{ctx: 0, cond: 'n', fail: true}, {ctx: 1, cond: 'n'}, {ctx: 0, cond: 'n', after: true}, {ctx: 1, cond: 'n', before: true}}})
+				}
 			}
 		}
 	}
@@ -612,6 +626,7 @@ func genHookScenarios(tier string, rng *rand.Rand) []hookScenario {
 			s.ghost = rng.Intn(4) == 0
 		}
 		s.nest = rng.Intn(3) == 0
+		s.nestStrict = rng.Intn(2) == 0
 		for c := range s.upFail {
 			s.upFail[c] = rng.Intn(5) == 0
 		}
